@@ -8,8 +8,12 @@ normal…) are carried along unchanged by `proto.Clone` in `Cut`/`Shift` and lef
 do not influence any time or magnitude, so they are not modelled.  Instants (`time.Time`) are
 integer nanoseconds on one absolute timeline; `t.Sub(st)` is integer subtraction (the harness keeps
 all instants within a few seconds of each other, far from the saturation of `time.Duration`).
-`time.Time.IsZero()` in `Sum` is used by the code as "not set yet"; the model uses `Option`
-(the harness never uses the year-1 zero instant as a start time).
+`modepb.Sum` finds the earliest/latest start time with "the first start time seen seeds both
+bounds" (`stCount == 1 ||`, after `fix:` 7872cfb): `Option` in `startsLoop`.  Before that commit the code
+tested `earliest.IsZero()` / `latest.IsZero()` for "not set yet", which misreads a start time AT the zero
+`time.Time`: `startsLoopLegacy`/`modeSumLegacy` keep that version (parameter `zero` = the instant of the
+zero `time.Time`), see `PropsMode.C18_modes_sum_legacy_fails`.  The harness places model time 0 on an
+ordinary instant, on the zero `time.Time` and on the Unix epoch.
 -/
 namespace ScVerif.C18
 
@@ -104,6 +108,28 @@ def modeSum (ms : List Mode) : Option Mode :=
     | (some earliest, some latest) =>
       some ⟨some earliest, sum (alignLoop earliest latest ms)⟩
     | _ => some ⟨none, sum (ms.map (·.segs))⟩
+
+/-- First loop of `modepb.Sum` as it was BEFORE `fix:` 7872cfb: `earliest`, `latest` are Go `time.Time`
+variables that start at the zero value, "not set yet" is `IsZero()`, `stCount` counts the start times;
+`zero` is the instant of the zero `time.Time` on the model's timeline. -/
+def startsLoopLegacy (zero : Int) : Int → Int → Nat → List Mode → Int × Int × Nat
+  | e, l, n, [] => (e, l, n)
+  | e, l, n, m :: ms =>
+    match m.start with
+    | none => startsLoopLegacy zero e l n ms
+    | some st =>
+      let e' := if e = zero ∨ st < e then st else e
+      let l' := if l = zero ∨ st > l then st else l
+      startsLoopLegacy zero e' l' (n + 1) ms
+
+/-- `modepb.Sum` before `fix:` 7872cfb (`anyHaveST := stCount > 0`). -/
+def modeSumLegacy (zero : Int) (ms : List Mode) : Option Mode :=
+  match ms with
+  | [] => none
+  | _ =>
+    let r := startsLoopLegacy zero zero zero 0 ms
+    if r.2.2 > 0 then some ⟨some r.1, sum (alignLoop r.1 r.2.1 ms)⟩
+    else some ⟨none, sum (ms.map (·.segs))⟩
 
 /-- The loop of `modepb.MinAt(t, modes)`: `modes` is a Go map, so the loop visits the modes in an
 unspecified order; `ms` is the list of modes IN THE ORDER THE ITERATION DELIVERS THEM, the state is the
